@@ -40,6 +40,7 @@ const hookPkg = `// Package verifhook is added to a scratch copy of the module b
 package verifhook
 
 import (
+	"context"
 	"math/rand"
 	"os"
 	"reflect"
@@ -79,6 +80,10 @@ func SeamReset(seed uint64) {
 	atomic.StoreUint64(&nowCalls, 0)
 	atomic.StoreUint64(&randCalls, 0)
 	atomic.StoreInt64(&clockNs, 0)
+	timerMu.Lock()
+	timers = nil
+	atomic.StoreInt32(&nTimers, 0)
+	timerMu.Unlock()
 }
 
 // SeamStats reports how often the clock was read and how many random numbers
@@ -106,6 +111,9 @@ func Now() time.Time {
 	}
 	n := atomic.AddUint64(&nowCalls, 1)
 	c := atomic.AddInt64(&clockNs, clockSteps[mix(s, n)%uint64(len(clockSteps))])
+	if atomic.LoadInt32(&nTimers) > 0 {
+		fireDue(c)
+	}
 	return time.Unix(1600000000, 0).Add(time.Duration(c))
 }
 func Since(t time.Time) time.Duration { return Now().Sub(t) }
@@ -116,8 +124,150 @@ func Sleep(d time.Duration) {
 		return
 	}
 	if d > 0 {
-		atomic.AddInt64(&clockNs, int64(d)) // simulated time passes, real time does not
+		c := atomic.AddInt64(&clockNs, int64(d)) // simulated time passes, real time does not
+		if atomic.LoadInt32(&nTimers) > 0 {
+			fireDue(c)
+		}
 	}
+}
+
+// ---- simulated timers -------------------------------------------------------
+//
+// time.NewTimer / After / AfterFunc and context.WithTimeout / WithDeadline of
+// the code under test create a REAL timer (so nothing ever hangs: left alone it
+// fires after its real duration) that is also registered with the simulated
+// clock. Whenever simulated time passes — a clock reading, a Sleep, or the
+// simulator stalling an I/O call (Advance) — every registered timer whose
+// simulated deadline has been reached and that is still pending is made to fire
+// at once: a timeout of a second costs nothing and happens exactly when the plan
+// makes an underlying call slow.
+
+type simTimer struct {
+	due  int64 // simulated deadline
+	t    *time.Timer
+	done chan struct{} // AfterFunc: closed when the callback has returned
+}
+
+var timerMu sync.Mutex
+var timers []*simTimer
+var nTimers int32
+var timersMade uint64
+
+// TimersMade reports how many timers the code under test has created since the
+// process started (the simulator's I/O looks at goroutine identities only once
+// this is non-zero).
+func TimersMade() uint64 { return atomic.LoadUint64(&timersMade) }
+
+func register(st *simTimer, d time.Duration) {
+	if d < 0 {
+		d = 0
+	}
+	st.due = atomic.LoadInt64(&clockNs) + int64(d)
+	atomic.AddUint64(&timersMade, 1)
+	timerMu.Lock()
+	timers = append(timers, st)
+	atomic.StoreInt32(&nTimers, int32(len(timers)))
+	timerMu.Unlock()
+}
+
+// fireDue fires every registered timer that is due at simulated time now and
+// returns how many were still pending.
+func fireDue(now int64) int {
+	timerMu.Lock()
+	var due []*simTimer
+	keep := timers[:0]
+	for _, st := range timers {
+		if st.due <= now {
+			due = append(due, st)
+		} else {
+			keep = append(keep, st)
+		}
+	}
+	for i := len(keep); i < len(timers); i++ {
+		timers[i] = nil
+	}
+	timers = keep
+	atomic.StoreInt32(&nTimers, int32(len(timers)))
+	timerMu.Unlock()
+	n := 0
+	for _, st := range due {
+		// Stop reports whether the timer was still pending: one that the code
+		// under test has stopped, or that has fired for real, is left alone.
+		if st.t.Stop() {
+			st.t.Reset(0)
+			n++
+			if st.done != nil {
+				select { // the callback runs on a goroutine of the runtime: give it a moment
+				case <-st.done:
+				case <-time.After(5 * time.Millisecond):
+				}
+			}
+		}
+	}
+	return n
+}
+
+// Advance lets d of simulated time pass (the simulator stalls an I/O call of
+// the code under test) and returns how many timers fired because of it.
+func Advance(d time.Duration) int {
+	if atomic.LoadUint64(&seamSeed) == 0 || d <= 0 {
+		return 0
+	}
+	c := atomic.AddInt64(&clockNs, int64(d))
+	if atomic.LoadInt32(&nTimers) == 0 {
+		return 0
+	}
+	return fireDue(c)
+}
+
+func NewTimer(d time.Duration) *time.Timer {
+	t := time.NewTimer(d)
+	if atomic.LoadUint64(&seamSeed) != 0 {
+		register(&simTimer{t: t}, d)
+	}
+	return t
+}
+
+func After(d time.Duration) <-chan time.Time { return NewTimer(d).C }
+
+// WithTimeout / WithDeadline stand in for the functions of package context: the
+// deadline is one of the simulated clock.
+func WithTimeout(parent context.Context, d time.Duration) (context.Context, context.CancelFunc) {
+	if atomic.LoadUint64(&seamSeed) == 0 {
+		return context.WithTimeout(parent, d)
+	}
+	inner, cancel := context.WithCancel(parent)
+	c := &deadlineCtx{Context: inner, at: time.Unix(1600000000, 0).Add(time.Duration(atomic.LoadInt64(&clockNs)) + d)}
+	if pd, ok := parent.Deadline(); ok && pd.Before(c.at) {
+		c.at = pd
+	}
+	t := AfterFunc(d, func() {
+		atomic.StoreInt32(&c.expired, 1)
+		cancel()
+	})
+	return c, func() { t.Stop(); cancel() }
+}
+
+func WithDeadline(parent context.Context, at time.Time) (context.Context, context.CancelFunc) {
+	if atomic.LoadUint64(&seamSeed) == 0 {
+		return context.WithDeadline(parent, at)
+	}
+	return WithTimeout(parent, at.Sub(time.Unix(1600000000, 0).Add(time.Duration(atomic.LoadInt64(&clockNs)))))
+}
+
+type deadlineCtx struct {
+	context.Context
+	at      time.Time
+	expired int32
+}
+
+func (c *deadlineCtx) Deadline() (time.Time, bool) { return c.at, true }
+func (c *deadlineCtx) Err() error {
+	err := c.Context.Err()
+	if err != nil && atomic.LoadInt32(&c.expired) == 1 {
+		return context.DeadlineExceeded
+	}
+	return err
 }
 
 func rnd() uint64 {
@@ -315,7 +465,17 @@ func SetFinalizer(obj interface{}, finalizer interface{}) {
 
 // AfterFunc stands in for time.AfterFunc: f runs on a goroutine of the runtime.
 func AfterFunc(d time.Duration, f func()) *time.Timer {
-	return time.AfterFunc(d, func() { foreignCall(f) })
+	if atomic.LoadUint64(&seamSeed) == 0 {
+		return time.AfterFunc(d, func() { foreignCall(f) })
+	}
+	st := &simTimer{done: make(chan struct{})}
+	var once sync.Once
+	st.t = time.AfterFunc(d, func() {
+		defer once.Do(func() { close(st.done) })
+		foreignCall(f)
+	})
+	register(st, d)
+	return st.t
 }
 
 // Mutex stands in for sync.Mutex.
@@ -405,7 +565,8 @@ const yieldText = "verifhook.Yield(); "
 
 // seamed: the selectors of package time and of math/rand (v1 and v2, package-
 // level functions only) that are redirected to verifhook.
-var seamedTime = map[string]bool{"Now": true, "Since": true, "Until": true, "Sleep": true, "AfterFunc": true}
+var seamedTime = map[string]bool{"Now": true, "Since": true, "Until": true, "Sleep": true, "AfterFunc": true, "NewTimer": true, "After": true}
+var seamedCtx = map[string]bool{"WithTimeout": true, "WithDeadline": true}
 var seamedRand = map[string]bool{"Uint64": true, "Uint32": true, "Int63": true, "Int31": true, "Int": true, "Float64": true, "Float32": true, "Seed": true,
 	"Int63n": true, "Int31n": true, "Intn": true, "Perm": true, "Shuffle": true, "Read": true,
 	"IntN": true, "Int64N": true, "Int32N": true, "Uint64N": true, "Uint32N": true, "Int64": true, "Int32": true}
@@ -437,7 +598,8 @@ func seamFile(path string) (int, error) {
 	randName := importName(f, "math/rand", "rand")
 	rand2Name := importName(f, "math/rand/v2", "rand")
 	rtName := importName(f, "runtime", "runtime")
-	if timeName == "" && randName == "" && rand2Name == "" && rtName == "" {
+	ctxName := importName(f, "context", "context")
+	if timeName == "" && randName == "" && rand2Name == "" && rtName == "" && ctxName == "" {
 		return 0, nil
 	}
 	type edit struct {
@@ -459,6 +621,9 @@ func seamFile(path string) (int, error) {
 		case timeName != "" && id.Name == timeName && seamedTime[se.Sel.Name]:
 			edits = append(edits, edit{fset.Position(se.Pos()).Offset, fset.Position(se.End()).Offset, "verifhook." + se.Sel.Name})
 			used[timeName+".Duration"] = true
+		case ctxName != "" && id.Name == ctxName && seamedCtx[se.Sel.Name]:
+			edits = append(edits, edit{fset.Position(se.Pos()).Offset, fset.Position(se.End()).Offset, "verifhook." + se.Sel.Name})
+			used[ctxName+".Context"] = true
 		case rtName != "" && id.Name == rtName && se.Sel.Name == "SetFinalizer":
 			// (a finalizer runs on a goroutine of the runtime: see verifhook.SetFinalizer)
 			edits = append(edits, edit{fset.Position(se.Pos()).Offset, fset.Position(se.End()).Offset, "verifhook.SetFinalizer"})
